@@ -118,16 +118,52 @@ def merge (S : Schema) (ty : Nat) (u : Updater) (dst src : Fields) : Out Merged 
 
 /-! ## resource plumbing -/
 
-/-- `WriteRequest.fieldUpdater(writableFields)`: resource writable fields ∪ per-call extra writable
-fields (already normalised by `WithMoreWritableFields`), unless `WithAllFieldsWritable`. -/
+/-- The `masks.FieldUpdaterOption`s that `WriteRequest.fieldUpdater` uses. -/
+inductive FUOpt where
+  | withUpdateMask (m : Option (List Path))       -- masks.WithUpdateMask
+  | withResetMask (m : Option (List Path))        -- masks.WithResetMask
+  | withWritableFields (m : Option (List Path))   -- masks.WithWritableFields
+deriving DecidableEq, Repr, Inhabited
+
+/-- `opt(updater)`.  `WithUpdateMask` and `WithWritableFields` return `emptyFieldUpdaterOption` for a
+NIL mask only (`== nil`, not `len(paths) == 0`): a non-nil mask without paths is stored as it is —
+for the writable fields it means "nothing is writable", for the update mask "no changes". -/
+def FUOpt.apply (u : Updater) : FUOpt → Updater
+  | .withUpdateMask none => u
+  | .withUpdateMask (some M) => { u with update := some M }
+  | .withResetMask m => { u with reset := m }
+  | .withWritableFields none => u
+  | .withWritableFields (some W) => { u with writable := some W }
+
+/-- `masks.NewFieldUpdater(opts...)` (the default option only sets the field name of error texts). -/
+def newFieldUpdater (opts : List FUOpt) : Updater := opts.foldl FUOpt.apply ⟨none, none, none⟩
+
+/-- `WriteRequest.fieldUpdater(writableFields)`: update and reset mask of the request, and — unless
+`WithAllFieldsWritable` or the resource has no writable fields — `masks.WithWritableFields` of the
+resource writable fields ∪ per-call extra writable fields (already normalised by
+`WithMoreWritableFields`). -/
 def fieldUpdater (resWritable more : Option (List Path)) (allWritable : Bool)
     (update reset : Option (List Path)) : Updater :=
-  let W : Option (List Path) :=
-    if allWritable then none
-    else match resWritable with
-      | some w => some (union w (more.getD []))
-      | none => none
-  { writable := W, update := update, reset := reset }
+  let opts : List FUOpt := [.withUpdateMask update, .withResetMask reset]
+  let opts : List FUOpt :=
+    if !allWritable then
+      match resWritable with
+      | some w => opts ++ [.withWritableFields (some (union w (more.getD [])))]
+      | none => opts
+    else opts
+  newFieldUpdater opts
+
+/-- The updater `WriteRequest.fieldUpdater` builds, field by field. -/
+theorem fieldUpdater_eq (resWritable more : Option (List Path)) (allWritable : Bool)
+    (update reset : Option (List Path)) :
+    fieldUpdater resWritable more allWritable update reset =
+      { writable := if allWritable then none
+          else match resWritable with
+            | some w => some (union w (more.getD []))
+            | none => none,
+        update := update, reset := reset } := by
+  cases allWritable <;> cases resWritable <;> cases update <;>
+    simp [fieldUpdater, newFieldUpdater, FUOpt.apply]
 
 /-- `WithMoreWritableFields(m)` on a fresh request: `Union(nil, m)`. -/
 def moreWritable (m : Option (List Path)) : Option (List Path) := m.map normalize
